@@ -42,7 +42,11 @@ __CPROVER_requires(outputHash == &g_vr_temp.aggregationOutputHash && g_vr_temp.a
 __CPROVER_ensures(IMPLIES(__CPROVER_return_value == KSI_OK, chainList != NULL && ctx != NULL && level >= 0 && level <= 0xff &&
 		(*outputHash == NULL || (*outputHash == &g_vr_h[VR_H_NEW2] && g_vr_h_ref[VR_H_NEW2] == 1))))
 __CPROVER_ensures(IMPLIES(__CPROVER_return_value != KSI_OK, *outputHash == NULL && g_vr_h_ref[VR_H_NEW2] == 0))
-__CPROVER_assigns(*outputHash, g_vr_h_ref[VR_H_NEW2]);
+/* VR_C01_LISTAGG_AUDIT_FRAME: empty, except in the job that ENFORCES this contract (C01.wrap_list_aggregate adds a vacuity-guard ghost, audit builderY) */
+#ifndef VR_C01_LISTAGG_AUDIT_FRAME
+#define VR_C01_LISTAGG_AUDIT_FRAME
+#endif
+__CPROVER_assigns(*outputHash, g_vr_h_ref[VR_H_NEW2] VR_C01_LISTAGG_AUDIT_FRAME);
 
 /* ------------------------------------------------ existence selectors / presence rules ------------------------------------------------ */
 #define VR_SELECTOR(RULE, FIELD, WANT) \
